@@ -99,6 +99,8 @@ class Check:
     # ------------------------------------------------------------------ proof side
     def prove(self, modules):
         """Build the theorem modules (and the driver), audit axioms, scan sources."""
+        # the generated wiring table follows /repo's manifests on every run (the driver links it)
+        sh(["python3", os.path.join(ROOT, "tools", "gen_wiring.py")])
         targets = list(modules) + ["driver"]
         self.checker_cmd = "cd /verif/lean && lake build " + " ".join(targets) + \
             " && lake env lean --run Audit.lean <module>  (axiom audit)" + \
